@@ -48,6 +48,48 @@ fn c19_roll_forms_agree() {
     kani::cover!(n == 3);
 }
 
+/// slice / += slice forms == byte-wise feeding from an ARBITRARY state for slices of up to
+/// 9 bytes (longer than the 7-byte window, so that any window-skipping shortcut is exercised)
+#[kani::proof]
+#[kani::unwind(11)]
+fn c19_roll_slice_forms_l9() {
+    let start = any_state();
+    let buf: [u8; 9] = kani::any();
+    let n: usize = kani::any();
+    kani::assume(n <= 9);
+    let mut a = start;
+    let mut i = 0;
+    while i < 9 {
+        if i < n {
+            a.update_by_byte(buf[i]);
+        }
+        i += 1;
+    }
+    let mut b = start;
+    b.update(&buf[..n]);
+    let mut c = start;
+    c.update_by_iter(buf[..n].iter().copied());
+    let mut d = start;
+    d += &buf[..n];
+    let (fa, fb, fc, fd) = (test_utils::verif_fields(&a), test_utils::verif_fields(&b), test_utils::verif_fields(&c), test_utils::verif_fields(&d));
+    assert!(fa.0 == fb.0 && fa.1 == fb.1 && fa.2 == fb.2 && fa.3 == fb.3);
+    assert!(fa.0 == fc.0 && fa.1 == fc.1 && fa.2 == fc.2 && fa.3 == fc.3);
+    assert!(fa.0 == fd.0 && fa.1 == fd.1 && fa.2 == fd.2 && fa.3 == fd.3);
+    let mut k = 0;
+    while k < 7 {
+        assert!(fa.4[k] == fb.4[k] && fa.4[k] == fc.4[k] && fa.4[k] == fd.4[k]);
+        k += 1;
+    }
+    assert!(a.value() == b.value());
+    if n == 9 {
+        let mut e = start;
+        e += &buf;
+        assert!(e.value() == a.value() && test_utils::verif_fields(&e).2 == fa.2);
+    }
+    kani::cover!(n == 9);
+    kani::cover!(n == 8);
+}
+
 /// From new(): after k <= 9 bytes the value equals the definition over the trailing window
 /// (zero padded), i.e. depends only on the last seven bytes.
 #[kani::proof]
